@@ -15,6 +15,7 @@ func init() {
 		add(CronRecScenario{Name: "fault2-lag1", JobConfigs: []string{"a.b"}, Times: []int{t1, t2}, MaxEnqueues: 3, Budget: mc.Budget{Faults: 2, Lag: 1}})
 		add(CronRecScenario{Name: "forbid-policy", JobConfigs: []string{"a"}, Times: []int{t1, t2}, MaxEnqueues: 3, Policy: "Forbid", Budget: mc.Budget{Lag: 1, Faults: 1}})
 		add(CronRecScenario{Name: "deleted-then-rerequested", JobConfigs: []string{"a"}, Times: []int{t1}, MaxEnqueues: 3, DeleteJob: true, Budget: mc.Budget{Lag: 1}})
+		add(CronRecScenario{Name: "reserved-keys-in-template", JobConfigs: []string{"a", "a-1"}, Times: []int{t1, t2}, MaxEnqueues: 3, ReservedTemplateMeta: true, Budget: mc.Budget{Lag: 1}})
 		if thorough {
 			add(CronRecScenario{Name: "two-configs-4-requests-lag2-fault1-crash1", JobConfigs: []string{"a", "a.b"}, Times: []int{t1, t2}, MaxEnqueues: 4, Budget: mc.Budget{Lag: 2, Faults: 1, Crashes: 1}})
 			add(CronRecScenario{Name: "name-alphabet-fault2", JobConfigs: names, Times: []int{t1, t2}, MaxEnqueues: 3, Budget: mc.Budget{Faults: 2}})
